@@ -268,6 +268,10 @@ def finding_of_names(names):
 # streams
 # ------------------------------------------------------------------------------------------
 def stream_codec(I, R, r, n):
+    # the blank characters of str.strip()/split()/isspace() (carried by Py.isSpace in the model)
+    for lo, hi in ((0, 0x3100), (0xfe00, 0x10000), (0x1fff0, 0x20010)):
+        want = ' '.join(str(cp) for cp in range(lo, hi) if chr(cp).isspace())
+        R.add(Case({'op': 'spaces', 'lo': lo, 'hi': hi}, impl=want, kind='codec', tags=('isspace-table',)), 'spaces\t%d\t%d' % (lo, hi))
     for _ in range(n):
         s = gen_value_str(r)
         if not valid_unicode(s):
@@ -545,6 +549,11 @@ def stream_names(I, R, r, n):
         R.add(Case({'op': 'join', 'names': names}, impl=wire.enc(j), oracle_ok=ok, kind='name', finding=fid,
                    oracle_msg='' if ok else 'split(join(%r)) = %r' % (names, back),
                    tags=('join', 'n%d' % len(names)) + (('in-finding-class',) if fid else ())), 'join\t' + wire.enc_list(names))
+        nm = r.choice(['#', '&', '!', '+', '', 'a']) + gen_name(r) + r.choice(['', '', ' ', '\n', ',x', '\x07', 'c' * 50])
+        R.add(Case({'op': 'ischannel', 'name': nm}, impl='1' if I.ircutils.isChannel(nm) else '0', kind='name', tags=('ischannel',)),
+              'ischannel\t' + wire.enc(nm))
+        R.add(Case({'op': 'validname', 'name': nm}, impl='1' if I.registry.isValidRegistryName(nm) else '0', kind='name', tags=('validname',)),
+              'validname\t' + wire.enc(nm))
         t = j if r.random() < 0.6 else gen_name(r) + '.' + gen_name(r)
         try:
             sp = reg.split(t)
